@@ -211,7 +211,7 @@ def showAddr (a : Server.Addr) : String := s!"{a.1}:{a.2}"
 
 def actOf (s : String) : HAct :=
   if s == "raise" then .raise else if s == "echo" then .echo else if s == "disc" then .disc
-  else if s == "echoRaise" then .echoRaise else if s == "discRaise" then .discRaise else .ok
+  else if s == "echoRaise" then .echoRaise else if s == "discRaise" then .discRaise else if s == "kick" then .kick else .ok
 
 def parseActs (s : String) : List HAct := if s == "-" then [] else (s.splitOn ",").map actOf
 
